@@ -119,7 +119,9 @@ fn check_style_core(m: MStyle) -> Result<(), String> {
 /// oracles 1-4 on one style
 fn check_style(m: MStyle) -> Result<(), String> {
     let style = to_style(m);
-    if from_style(style) != m {
+    // (whether a getter echoes the very value that was set is C13's question; here the harness only
+    // has to know that it is rendering the style it means to - the same colours in canonical form)
+    if from_style(style).canon() != m.canon() {
         return Err(format!("getters do not return what the setters stored for [{}]", m.describe()));
     }
     let disp = format!("{style}").into_bytes();
